@@ -7,7 +7,7 @@
    coordinates, every density); partition of unity is a HYPOTHESIS here, discharged for the real
    tables by C06_partition_of_unity (coq/props/C06/C06_lagrange.v: forall e in all_elems, forall
    point l, Rsum (map (Reval l) (eN e)) = 1).                                                  *)
-From Coq Require Import List Arith Bool PeanoNat Lia Reals Lra.
+From Coq Require Import List Arith Bool PeanoNat Lia Reals Lra Permutation.
 Import ListNotations.
 
 (* ====================================================================================== *)
@@ -93,6 +93,58 @@ Section Select.
   Theorem select_nonexcl_spec sel x :
     In x (touching sel) <-> In x ielems /\ exists n, In n (snd x) /\ In n sel.
   Proof. unfold touching. now rewrite filter_In, has_any_spec. Qed.
+
+  (* ---- the node selection is a SET: order and repetitions of the ids are irrelevant ---- *)
+  Definition same_set (s1 s2 : list nat) : Prop := forall n, In n s1 <-> In n s2.
+
+  Lemma memn_ext s1 s2 n : same_set s1 s2 -> memn n s1 = memn n s2.
+  Proof.
+    intros H. destruct (memn n s1) eqn:E1, (memn n s2) eqn:E2; auto.
+    - apply memn_In, H, memn_In in E1. congruence.
+    - apply memn_In, H, memn_In in E2. congruence.
+  Qed.
+
+  Lemma has_any_ext s1 s2 row : same_set s1 s2 -> has_any s1 row = has_any s2 row.
+  Proof.
+    intros H. unfold has_any. induction row as [|a row IH]; simpl; auto.
+    now rewrite IH, (memn_ext s1 s2 a H).
+  Qed.
+
+  Lemma filter_ext' {A} (f g : A -> bool) l : (forall x, f x = g x) -> filter f l = filter g l.
+  Proof. intros H. induction l; simpl; auto. now rewrite H, IHl. Qed.
+
+  Lemma touching_ext s1 s2 : same_set s1 s2 -> touching s1 = touching s2.
+  Proof. intros H. unfold touching. apply filter_ext'. intros x. now apply has_any_ext. Qed.
+
+  Theorem select_excl_ext s1 s2 : same_set s1 s2 -> select_excl s1 = select_excl s2.
+  Proof.
+    intros H. unfold select_excl, elementsIntru, nodesIntru, nodesElem.
+    rewrite (touching_ext s1 s2 H).
+    assert (E : filter (fun n => negb (memn n s1)) (flat_map snd (touching s2)) =
+                filter (fun n => negb (memn n s2)) (flat_map snd (touching s2))).
+    { apply filter_ext'. intros n. now rewrite (memn_ext s1 s2 n H). }
+    now rewrite E.
+  Qed.
+
+  Theorem select_ext s1 s2 b : same_set s1 s2 -> select s1 b = select s2 b.
+  Proof.
+    intros H. unfold select. destruct b.
+    - now rewrite (select_excl_ext s1 s2 H).
+    - now rewrite (touching_ext s1 s2 H).
+  Qed.
+
+  (* reordering the ids (np.concatenate in any order, shuffles) *)
+  Corollary select_permutation s1 s2 b : Permutation s1 s2 -> select s1 b = select s2 b.
+  Proof.
+    intros P. apply select_ext. intros n. split; apply Permutation_in; auto. now apply Permutation_sym.
+  Qed.
+
+  (* repeating ids (np.concatenate([nodes_bottom, nodes_right]) sharing the corner node) *)
+  Corollary select_duplicates s extra b : (forall n, In n extra -> In n s) ->
+    select (s ++ extra) b = select s b.
+  Proof.
+    intros H. apply select_ext. intros n. rewrite in_app_iff. split; [intros [A|A]; auto|auto].
+  Qed.
 End Select.
 
 (* ====================================================================================== *)
@@ -445,3 +497,57 @@ Proof.
   - intros g [<-|[<-|[]]]; simpl; lra.
   - unfold vec, contribs, F_call, nPe, nthR. simpl. lra.
 Qed.
+
+(* ====================================================================================== *)
+(* D. pairing of unknowns and values when a call is split by a filter                      *)
+(*    (Beam.add_lineLoad: lagrange_idx / hermitian_idx, herm_unknowns / herm_values)       *)
+(* ====================================================================================== *)
+Section FilterZip.
+  Variables (U V : Type) (du : U) (dv : V).
+  Variable keep : U -> bool.
+  (* hermitian_idx = [i for i, u in enumerate(unknowns) if u in hermitian] *)
+  Definition idx_of (us : list U) : list nat := filter (fun i => keep (nth i us du)) (seq 0 (length us)).
+  (* herm_unknowns = [unknowns[i] for i in idx]; herm_values = [values[i] for i in idx] *)
+  Definition pick {A} (idx : list nat) (l : list A) (d : A) : list A := map (fun i => nth i l d) idx.
+  (* the loop `for u, unknown in enumerate(herm_unknowns): value = herm_values[u]` *)
+  Definition processed (us : list U) (vs : list V) : list (U * V) :=
+    combine (pick (idx_of us) us du) (pick (idx_of us) vs dv).
+  (* the seeded/buggy variant: value = values[u] read from the UNFILTERED list *)
+  Definition processed_unfiltered (us : list U) (vs : list V) : list (U * V) :=
+    combine (pick (idx_of us) us du) vs.
+
+  Lemma combine_map2 {A B} (f : nat -> A) (g : nat -> B) idx :
+    combine (map f idx) (map g idx) = map (fun i => (f i, g i)) idx.
+  Proof. induction idx; simpl; auto. now rewrite IHidx. Qed.
+
+  Lemma filter_map_comm {A B} (h : A -> B) (q : B -> bool) l :
+    filter q (map h l) = map h (filter (fun a => q (h a)) l).
+  Proof. induction l; simpl; auto. destruct (q (h a)); simpl; now rewrite IHl. Qed.
+
+  Lemma map_nth_combine (us : list U) : forall (vs : list V), length us = length vs ->
+    map (fun i => (nth i us du, nth i vs dv)) (seq 0 (length us)) = combine us vs.
+  Proof.
+    induction us as [|u us IH]; intros [|v vs] H; simpl in *; try discriminate; auto.
+    f_equal. rewrite <- seq_shift, map_map. apply IH. lia.
+  Qed.
+
+  (* zip and filter commute: what is processed is exactly the user's (unknown, value) pairs whose
+     unknown passes the filter, in the user's order *)
+  Theorem filter_zip_commute us vs : length us = length vs ->
+    processed us vs = filter (fun p => keep (fst p)) (combine us vs).
+  Proof.
+    intros H. unfold processed, pick, idx_of. rewrite combine_map2.
+    rewrite <- (map_nth_combine us vs H), filter_map_comm. reflexivity.
+  Qed.
+
+  Corollary processed_pairs_are_the_users us vs u v : length us = length vs ->
+    In (u, v) (processed us vs) -> In (u, v) (combine us vs) /\ keep u = true.
+  Proof. intros H Hin. rewrite (filter_zip_commute us vs H) in Hin. apply filter_In in Hin. tauto. Qed.
+End FilterZip.
+
+(* reading the unfiltered list pairs "y" with the value the user gave for "x" *)
+Example unfiltered_values_refuted :
+  let keep := fun u : nat => negb (Nat.eqb u 0) in      (* unknown 0 = "x" (Lagrange), 1 = "y" *)
+  processed nat R 0%nat 0 keep [0%nat; 1%nat] [10; 20] = [(1%nat, 20)] /\
+  processed_unfiltered nat R 0%nat keep [0%nat; 1%nat] [10; 20] = [(1%nat, 10)].
+Proof. split; reflexivity. Qed.
